@@ -12,5 +12,7 @@ INVARIANT TimeIndex
 INVARIANT LogbookRep
 INVARIANT DoneAll
 PROPERTY TimeMonotone
+PROPERTY CycleTicksByOne
+PROPERTY EvolveStartsAtOne
 PROPERTY Done
 CHECK_DEADLOCK FALSE
